@@ -51,6 +51,12 @@ def mixture(classes, ml, cm, seed, **kw):
                                   random_state=seed, **kw)
 
 
+@_c("mixture_default")
+def mixture_default(classes, ml, cm, seed, **kw):
+    # default mixture model: created inside fit and seeded from the classifier's own random_state_
+    return MixtureModelClassifier(classes=classes, missing_label=ml, cost_matrix=cm, random_state=seed, **kw)
+
+
 @_c("mixture_sim")
 def mixture_sim(classes, ml, cm, seed, **kw):
     mm = GaussianMixture(n_components=2, reg_covar=1e-2, random_state=0)
